@@ -267,7 +267,31 @@ func runC09(cx *Ctx, r *Report) {
 		c2 := burn.Args[len(burn.Args)-1].LooseString()
 		coin := strings.TrimSuffix(strings.TrimPrefix(c2, "coins("), ")")
 		tv := tally.Args[1].LooseString()
-		ok := c1 == c2 && strings.Contains(tv, "φ{"+coin+"|sdk.Coin.Add(") || c1 == c2 && strings.Contains(tv, "sdk.Coin.Add(") && strings.Contains(tv, coin)
+		// tallied value: φ{coin | coin + previous tally}
+		ok := false
+		if ph := findSub(tally.Args[1], func(t *Term) bool { return t.Op == "phi" }); ph != nil && c1 == c2 {
+			sawPlain, sawAdd, other := false, false, false
+			for _, a := range ph.Args {
+				switch {
+				case a.LooseString() == coin:
+					sawPlain = true
+				case a.Op == "call" && a.Name == "sdk.Coin.Add" && len(a.Args) == 2:
+					x := a.Args[0]
+					xs := x.LooseString()
+					if xs == coin || xs == "φ{"+coin+"|⟲}" || xs == "⟲" {
+						if strings.Contains(a.Args[1].LooseString(), "GetBurnCoin(keeper, "+coin+".Denom)") {
+							sawAdd = true
+							continue
+						}
+					}
+					other = true
+				case a.LooseString() == "⟲":
+				default:
+					other = true
+				}
+			}
+			ok = sawPlain && sawAdd && !other
+		}
 		ok = ok && strings.Contains(tally.Args[0].LooseString(), coin+".Denom") && w3must(evs[0].w, take) && w3must(evs[0].w, burn) && w3must(evs[0].w, tally)
 		r.check(ok, "burn-tally", k, burn.Pos(cx), "the coin taken from the sender, the coin burned and the coin added to the tally are the same term "+coin, "burn tally mismatch: taken "+c1+", burned "+c2+", tallied "+tv)
 	}
